@@ -1,6 +1,7 @@
 package main
 
 import (
+	"bytes"
 	"context"
 	"encoding/binary"
 	"fmt"
@@ -147,7 +148,7 @@ func checkC06(c *vlib.Ctx) {
 		replayC06(c)
 		return
 	}
-	c.Rule("files written by the real wal.Writer (Append/AppendRaw/AppendRawWithMeta, rotation forced) then EVERY truncation offset and single-byte corruptions (every position x 3 values; sampled positions x all 255 values) read back with wal.Reader.ReadAll, a sample also through wal.Recovery callbacks; oracle: yielded entries are an in-order subsequence (deep equality) of the clean file's entries and every entry that ends at or before the truncation offset is yielded. non-trivial = distinct (file content hash, mutation) pairs where the mutated file differs from the clean one")
+	c.Rule("(A) files written by the real wal.Writer (Append/AppendRaw/AppendRawWithMeta, rotation forced) then EVERY truncation offset and single-byte corruptions (every position x 3 values; sampled positions x all 255 values) read back with wal.Reader.ReadAll, a sample also through wal.Recovery callbacks; oracle: yielded entries are an in-order subsequence (deep equality) of the clean file's entries and every entry that ends at or before the truncation offset is yielded. (B) rapid rotation: MaxSizeBytes=48, 400 back-to-back appends, every appended entry must be yielded exactly once from the undamaged files. non-trivial = distinct (file content hash, mutation) pairs where the mutated file differs from the clean one")
 	c.Assume("clean-file reference entries come from the same reader on the unmutated file, cross-checked against the generator's markers and an independent frame walk")
 	c.Assume("TimestampUS is outside the property (not covered by the CRC) and is not compared")
 	nFiles := c.N(16, 480)
@@ -239,6 +240,7 @@ func checkC06(c *vlib.Ctx) {
 		}(fi)
 	}
 	wg.Wait()
+	rapidRotation(c)
 	c.Floor(1000)
 }
 
@@ -501,5 +503,81 @@ func recoverySample(c *vlib.Ctx, rng *rand.Rand, dir string, data []byte, clean 
 			}
 		}
 		os.RemoveAll(rdir)
+	}
+}
+
+// rapidRotation: the writer rotates after (almost) every entry with no pause between
+// appends, so several rotations fall into the same millisecond. Every appended entry
+// must be yielded exactly once and intact by Reader.ReadAll over the directory's
+// files and by Recovery; no file may contain more than one file header.
+func rapidRotation(c *vlib.Ctx) {
+	rounds := c.N(3, 30)
+	for rd := 0; rd < rounds; rd++ {
+		dir := vlib.TempDir("c06rr")
+		w, err := wal.NewWriter(&wal.WriterConfig{WALDir: dir, SyncMode: wal.SyncModeAsync, MaxSizeBytes: 48, MaxAge: time.Hour,
+			SyncInterval: 0, SyncBytes: 0, BufferSize: 10000, Logger: zerolog.Nop()})
+		if err != nil {
+			panic(err)
+		}
+		n := 400
+		want := map[string]int{}
+		for i := 0; i < n; i++ {
+			marker := fmt.Sprintf("rr%d-%d", rd, i)
+			var aerr error
+			switch i % 3 {
+			case 0:
+				aerr = w.Append([]map[string]interface{}{{"marker": marker, "k": int64(i)}})
+			case 1:
+				aerr = w.AppendRaw(colPayload(rand.New(rand.NewPCG(uint64(i), 7)), marker, []byte("xy")))
+			default:
+				aerr = w.AppendRawWithMeta("db1", colPayload(rand.New(rand.NewPCG(uint64(i), 9)), marker, []byte("z")))
+			}
+			if aerr == nil {
+				want[marker]++
+			}
+		}
+		w.Close()
+		files, _ := filepath.Glob(filepath.Join(dir, "*.wal"))
+		sort.Strings(files)
+		got := map[string]int{}
+		corrupted := int64(0)
+		multiHeader := 0
+		for _, f := range files {
+			data, _ := os.ReadFile(f)
+			if bytes.Count(data, append(append([]byte{}, wal.WALMagic...), 0, 1, 1)) > 1 {
+				multiHeader++
+			}
+			rd := wal.NewReader(f, zerolog.Nop())
+			es, err := rd.ReadAll()
+			if err != nil {
+				c.Violation("rapid rotation: intact file unreadable", map[string]any{"err": err.Error()})
+				continue
+			}
+			corrupted += rd.CorruptedEntries
+			for _, e := range es {
+				y := canon(e)
+				if y.IsCol {
+					got[y.M]++
+				} else if len(y.Records) > 0 {
+					got[fmt.Sprint(y.Records[0]["marker"])]++
+				}
+			}
+		}
+		c.Eval()
+		c.Count("rapid_rotation_files", int64(len(files)))
+		c.Count("rapid_rotation_entries", int64(len(want)))
+		c.Nontrivial(fmt.Sprintf("rapid-rotation/%d/%d", rd, len(files)))
+		missing, dup := 0, 0
+		for m := range want {
+			if got[m] == 0 {
+				missing++
+			} else if got[m] > 1 {
+				dup++
+			}
+		}
+		if missing > 0 || dup > 0 || corrupted > 0 || multiHeader > 0 {
+			c.Violation("rapid rotation: completely written entries of never-damaged files are hidden or duplicated", map[string]any{"appended": len(want), "missing": missing, "duplicated": dup, "corrupted_entries_reported": corrupted, "files": len(files), "files_with_more_than_one_header": multiHeader})
+		}
+		os.RemoveAll(dir)
 	}
 }
